@@ -151,4 +151,10 @@ pub fn gen_case(r: &mut Rng, out: &mut String) {
         writeln!(out, "serde_visit {} b5 {}", kind, hex(&bytes)).unwrap();
         writeln!(out, "dump b5").unwrap();
     }
+    // --- the payload of the OTHER type (a treemap stream starts with its u64 partition count, not with a cookie)
+    if r.chance(1, 3) {
+        let g64 = super::stream64::gen_stream64(r, true, false);
+        writeln!(out, "serde_visit {} b5 {}", *r.pick(&KINDS), hex(&g64.bytes)).unwrap();
+        writeln!(out, "dump b5").unwrap();
+    }
 }
